@@ -235,7 +235,7 @@ class Analysis:
         # `(_t as Some).0` of checked_sub/checked_add: on the Some side the payload is the exact result
         if len(pl.proj) == 2 and isinstance(pl.proj[0], dict) and "v" in pl.proj[0] and isinstance(pl.proj[1], dict) and pl.proj[1].get("f") == 0:
             e = env.get(pl.local)
-            if e is not None and e[0] == "optlin" and pl.proj[0].get("v") == 1:
+            if e is not None and e[0] == "optlin" and pl.proj[0].get("v") == (e[2] if len(e) > 2 else 1):
                 return e[1]
         return None
 
@@ -368,6 +368,11 @@ class Analysis:
             if j.get("ak") == "adt" and str(j.get("adt", "")).startswith("std::ops::Range"):
                 forms = [self.lin_of_operand(o, env) for o in rv.ops]
                 val = ("range", j["adt"].split("::")[-1], forms)
+            elif j.get("ak") == "adt" and (j.get("adt"), j.get("variant")) in (("std::result::Result", "Ok"), ("std::option::Option", "Some")) and len(rv.ops) == 1:
+                # Ok(n) / Some(n): the payload read back on that variant is n
+                f_ = self.lin_of_operand(rv.ops[0], env)
+                if f_ is not None:
+                    val = ("optlin", f_, 0 if j.get("variant") == "Ok" else 1)
         elif k == "discr":
             val = None
         # apply
@@ -425,6 +430,10 @@ class Analysis:
             b_ = self.lin_of_operand(t.args[1], env)
             if a_ is not None and b_ is not None and b_[1] == 0:
                 dest_val = ("optlin", ("lin", a_[1], a_[2] - b_[2] if name == "checked_sub" else a_[2] + b_[2]))
+        if name == "branch" and "Try" in callee and t.args and t.args[0].place is not None and t.args[0].place.is_local():
+            e_ = env.get(t.args[0].place.local)
+            if e_ is not None and e_[0] == "optlin":
+                dest_val = ("optlin", e_[1], 0)        # ControlFlow::Continue carries the success payload
         if name == "is_empty" and t.args:
             bl = self.base_local(t.args[0], env)
             if bl is not None:
